@@ -2,17 +2,31 @@
 (* Trace validation for C12, API level: every line harness/undodrv.c logs (one io_channel call on the undo manager,
    a bit flip in the undo file, a run of the real e2undo binary) must be the step UndoIo takes: same return class, and
    the undo file as the driver's own reader finds it on disk after the call (header fields, every key with its
-   position in the file and the content tags of its data, the superblock copy) must be the file the specification
-   predicts; at close and after e2undo the device content must be the predicted one.  The invariants U1, U2, U3, R1,
-   R2 and Layout of UndoIo are evaluated after every line.                                                        *)
+   position in the file and the content tags of its data, the position of every key block, the superblock copy) must
+   be the file the specification predicts; at close and after e2undo the device content must be the predicted one.
+
+   The conformance model is UndoIo with the unrepaired deviations of the tree switched on (cfg).  EVERY line of EVERY
+   history has to be a step of that model -- a history that takes a known deviation is no exception: nothing below
+   stops at a failing property invariant.
+     hard invariants (cfg INVARIANT; hold with or without the deviations): R1, R2, Layout, AppendPos, QuietOk
+     property invariants U1, U2, U3: evaluated after every line (PropReport, an INVARIANT that is never false); the ones
+       that fail are printed <<"PROPFAIL", line, invariant, deviations active so far>>
+     a failing property invariant is the known finding only if a deviation was active in that history (act # {}):
+       QuietOk says that a history in which the literal formulae never differed from the repaired ones satisfies the
+       property (it is then a behaviour of the repaired specification, where MC_UndoIo establishes U1-U3)
+     cat  boundary catalogue (Catalogue below) elements met so far in this trace file, printed <<"CAT", name>> when first met *)
 EXTENDS UndoIo, Json, IOUtils
-VARIABLES l
-tvars == <<vars, l>>
+VARIABLES l,      \* next line
+          act,    \* deviations whose literal formula differed from the repaired one on some line of this history
+          bss,    \* channel block sizes under which this history's undo file was written
+          k0,     \* number of keys the undo file had when the channel was (re)opened
+          cat     \* catalogue elements met in this trace file
+tvars == <<vars, l, act, bss, k0, cat>>
 Tr == ndJsonDeserialize(IOEnv.TRACE)
 IsEvent(e) == l <= Len(Tr) /\ Tr[l].e = e /\ l' = l + 1
 E == Tr[l]
 
-\* the undo file on disk after the call
+\* ------------------------------------------------------------------ the undo file on disk after the call
 LoggedUf ==
    /\ (0 \notin dmg' => uf'.exists = (E.uf = 1))
    /\ uf'.exists /\ 0 \notin dmg' =>
@@ -24,37 +38,111 @@ LoggedUf ==
                           /\ \A i \in 1..Len(rk.keys) :
                                /\ rk.keys[i].fsblk = E.keys[i][1] /\ rk.keys[i].size = E.keys[i][2]
                                /\ rk.keys[i].data = E.keys[i][3] /\ rk.keys[i].fileblk = E.keys[i][4]
+                          /\ KeyBlockPos(uf', 0, 2, <<>>) = E.kpos
 LoggedDev == /\ len' = E.len
              /\ \A g \in 0..(len' - 1) : dev'[g] = E.dev[g + 1] \/ (dev'[g] = Foreign /\ E.dev[g + 1] = -1)
+
+\* ------------------------------------------------------------------ where a deviation shows
+\* the literal formulae of SaveOne / OpFirst / WriteIndexes / ReopenWalk differ from the repaired ones only if ...
+TilingActive(c) == c.open /\ c.tdb >= 1 /\ c.off % c.tdb # 0
+UnitsActive(c, sizes) == c.open /\ c.tdb >= 1 /\ (c.tdb % c.bs # 0 \/ Cardinality(sizes \cup {c.bs}) > 1)
+ActiveNow(c, sizes) == (IF DevAbsTiling /\ TilingActive(c) THEN {"DevAbsTiling"} ELSE {})
+                       \cup (IF DevChanUnits /\ UnitsActive(c, sizes) THEN {"DevChanUnits"} ELSE {})
+
+\* ------------------------------------------------------------------ boundary catalogue
+\* (what the explored universe has to contain; the check refuses to report "held" when an element was never met)
+LastKey(c) == IF c.kib > 0 THEN c.keyb[c.kib] ELSE [fsblk |-> 0, size |-> 0, crc |-> <<>>, gpos |-> 0]
+ShortLast(c) == c.kib > 0 /\ c.tdb >= 1 /\ LastKey(c).size % c.tdb # 0
+Saved(c, c2) == c2.nkeys > c.nkeys \/ (c2.kib = c.kib /\ c.kib > 0 /\ LastKey(c2).size > LastKey(c).size)
+Catalogue == {"short_block_saved",            \* the trailing partial undo block of a device (length not a multiple of tdb)
+              "reopen_short_last_key",        \* chain: the file that is reopened ends with such a key
+              "append_after_short_last_key",  \* ... and the new run saves a block behind it
+              "rewrite_after_short_reopen",   \* ... and the new run writes into that partial block again (already saved)
+              "reopen_full_key_block",        \* chain: the last key block of the reopened file is full
+              "append_after_full_key_block",
+              "reopen_partial_key_block",     \* chain: the new run continues the last key block
+              "append_after_reopen",
+              "first_write_wins",             \* a call that saved nothing new
+              "key_extension", "key_block_rollover",
+              "write_past_end", "short_read_refused", "tdb_not_multiple_of_bs", "offset_run",
+              "unfinished_close", "reopen_refused", "chain_of_three",
+              "undo_restores", "undo_unfinished", "undo_dry", "undo_refuses_damage", "undo_refuses_foreign"}
+CatOpen == IF E.ret # 0 THEN {"reopen_refused"}
+           ELSE (IF uf.exists /\ ShortLast(ch') THEN {"reopen_short_last_key"} ELSE {})
+                \cup (IF uf.exists /\ uf.hdr.nkeys > 0 /\ ch'.kib = 0 THEN {"reopen_full_key_block"} ELSE {})
+                \cup (IF uf.exists /\ ch'.kib > 0 THEN {"reopen_partial_key_block"} ELSE {})
+                \cup (IF nruns' = 3 THEN {"chain_of_three"} ELSE {})
+                \cup (IF E.a # 0 THEN {"offset_run"} ELSE {})
+CatCall == LET first == nruns >= 2 /\ ch.nkeys = k0          \* nothing saved yet since the reopen
+               sv == Saved(ch, ch')
+           IN (IF \E i \in 1..ch'.kib : ch'.keyb[i].size % ch'.tdb # 0 THEN {"short_block_saved"} ELSE {})
+              \cup (IF first /\ sv /\ ShortLast(ch) THEN {"append_after_short_last_key"} ELSE {})
+              \cup (IF nruns >= 2 /\ ~sv /\ E.ret = 0 /\ ShortLast(ch) /\ ch.nkeys = k0
+                       /\ OpLast(ch, CallBlk(ch, E.e, E.a, E.n), CallCnt(ch, E.e, E.a, E.n)) * ch.tdb + ch.tdb > len
+                    THEN {"rewrite_after_short_reopen"} ELSE {})
+              \cup (IF first /\ sv /\ ch.kib = 0 /\ ch.nkeys > 0 THEN {"append_after_full_key_block"} ELSE {})
+              \cup (IF first /\ sv THEN {"append_after_reopen"} ELSE {})
+              \cup (IF ~sv /\ E.ret = 0 THEN {"first_write_wins"} ELSE {})
+              \cup (IF ch'.nkeys = ch.nkeys /\ sv THEN {"key_extension"} ELSE {})
+              \cup (IF ch'.kblk # ch.kblk /\ ch.nkeys > 0 THEN {"key_block_rollover"} ELSE {})
+              \cup (IF len' > len THEN {"write_past_end"} ELSE {})
+              \cup (IF E.ret # 0 /\ E.e \notin {"zero", "disc"} THEN {"short_read_refused"} ELSE {})
+              \cup (IF ch'.tdb % ch'.bs # 0 THEN {"tdb_not_multiple_of_bs"} ELSE {})
+CatUndo == IF res'.kind = "refused" THEN (IF dmg # {} THEN {"undo_refuses_damage"} ELSE IF dev[uf.hdr.off + 1] = Foreign THEN {"undo_refuses_foreign"} ELSE {})
+           ELSE IF res'.kind = "dry" THEN {"undo_dry"}
+           ELSE (IF \A g \in 0..(N - 1) : dev'[g] = Dev0[g] THEN {"undo_restores"} ELSE {})
+                \cup (IF res'.needcheck THEN {"undo_unfinished"} ELSE {})
+
+\* bookkeeping common to every line; new = catalogue elements of this line
+Book(reset, sizes, new) ==
+   /\ bss' = sizes
+   /\ act' = (IF reset THEN {} ELSE act) \cup ActiveNow(ch', sizes)
+   /\ cat' = cat \cup new
+   /\ \A x \in new \ cat : PrintT(<<"CAT", x>>)
 
 TReset == /\ IsEvent("reset") /\ E.a = N
           /\ dev' = Dev0 /\ len' = N /\ ch' = NoCh /\ uf' = NoUf /\ pend' = NoPend /\ nops' = 0 /\ nruns' = 0
           /\ res' = NoRes /\ dmg' = {}
+          /\ k0' = 0 /\ Book(TRUE, {}, {})
+          /\ (l = 1 => PrintT(<<"CATALOGUE", Catalogue>>))
 TOpen == /\ IsEvent("open")
          /\ IF E.ret = 0 THEN OpenCh(E.a, E.n)
             ELSE /\ uf.exists /\ ~ReopenOk(uf, dmg, dev, len) /\ UNCHANGED vars
          /\ LoggedUf
+         /\ k0' = ch'.nkeys /\ Book(FALSE, bss, CatOpen)
 \* a call issued after an open that was refused: there is no channel
-TNoChan == IsEvent("nochan") /\ ~ch.open /\ UNCHANGED vars /\ LoggedUf
-TBlk == IsEvent("blk") /\ E.ret = 0 /\ SetBlk(E.a) /\ LoggedUf
+TNoChan == IsEvent("nochan") /\ ~ch.open /\ UNCHANGED vars /\ LoggedUf /\ UNCHANGED k0 /\ Book(FALSE, bss, {})
+TBlk == IsEvent("blk") /\ E.ret = 0 /\ SetBlk(E.a) /\ LoggedUf /\ UNCHANGED k0 /\ Book(FALSE, bss, {})
 TCall == /\ l <= Len(Tr) /\ E.e \in Kinds /\ l' = l + 1
          /\ Call(E.e, E.a, E.n, E.ret = 0)
          /\ LoggedUf
-TClose == IsEvent("close") /\ E.ret = 0 /\ CloseCh(E.a = 1) /\ LoggedUf /\ LoggedDev
+         /\ UNCHANGED k0
+         /\ Book(FALSE, IF Saved(ch, ch') THEN bss \cup {ch.bs} ELSE bss, CatCall)
+TClose == /\ IsEvent("close") /\ E.ret = 0 /\ CloseCh(E.a = 1) /\ LoggedUf /\ LoggedDev /\ UNCHANGED k0
+          /\ Book(FALSE, bss, IF E.a = 1 THEN {} ELSE {"unfinished_close"})
 TFlip == /\ IsEvent("flip")
          /\ IF E.a >= 0 THEN Damage(E.a) ELSE UNCHANGED vars
-         /\ LoggedUf
-TUnflip == IsEvent("unflip") /\ (IF dmg # {} THEN Repair ELSE UNCHANGED vars) /\ LoggedUf
-TTamper == IsEvent("tamper") /\ Tamper /\ LoggedDev
+         /\ LoggedUf /\ UNCHANGED k0 /\ Book(FALSE, bss, {})
+TUnflip == IsEvent("unflip") /\ (IF dmg # {} THEN Repair ELSE UNCHANGED vars) /\ LoggedUf /\ UNCHANGED k0 /\ Book(FALSE, bss, {})
+TTamper == IsEvent("tamper") /\ Tamper /\ LoggedDev /\ UNCHANGED k0 /\ Book(FALSE, bss, {})
 TE2undo == /\ IsEvent("e2undo") /\ E.a \in {0, 1}
            /\ \E rev \in BOOLEAN : E2undo(E.a = 1, rev)
            /\ (res'.kind = "refused") = (E.ret # 0)
            /\ res'.writes = E.n
            /\ (res'.kind = "done" => res'.needcheck = (E.bs = 1))
-           /\ LoggedDev /\ LoggedUf
+           /\ LoggedDev /\ LoggedUf /\ UNCHANGED k0 /\ Book(FALSE, bss, CatUndo)
 
-TraceInit == Init /\ l = 1
+TraceInit == Init /\ l = 1 /\ act = {} /\ bss = {} /\ k0 = 0 /\ cat = {}
 TraceNext == TReset \/ TOpen \/ TNoChan \/ TBlk \/ TCall \/ TClose \/ TFlip \/ TUnflip \/ TTamper \/ TE2undo
 TraceSpec == TraceInit /\ [][TraceNext]_tvars
 TraceAccepted == TLCGet("stats").diameter - 1 = Len(Tr)
+
+\* ------------------------------------------------------------------ invariants of the conformance model
+\* (state level on purpose: TLC caches the LET values of U1-U3 there, inside an action it would not)
+\* never false; reports the property invariants that fail in the state behind line l - 1
+PropReport == /\ (U1 \/ PrintT(<<"PROPFAIL", l - 1, "U1", act>>))
+              /\ (U2 \/ PrintT(<<"PROPFAIL", l - 1, "U2", act>>))
+              /\ (U3 \/ PrintT(<<"PROPFAIL", l - 1, "U3", act>>))
+\* no deviation active => the property invariants hold
+QuietOk == act = {} => U1 /\ U2 /\ U3
 =============================================================================
